@@ -4,14 +4,14 @@
    mask end on a step boundary (2), inside a step (3), at the end of the sequence (6) or no mask (0),
    both backends' query rules; three steps 0-2-4-6.                                                *)
 EXTENDS Interaction
-ClsSets(c) == IF c THEN [UPairs -> {"below", "equal", "above"}] ELSE [UPairs -> {"below", "above"}]
-Ends(m) == IF m = {} THEN {0} ELSE {2, 3, 6}
-cScn == UNION {UNION {{[custom |-> c, htype |-> h, cls |-> f, mask |-> m, slmEnd |-> e, T |-> <<0, 2, 4, 6>>, backend |-> b] :
-                         f \in ClsSets(c), e \in Ends(m), h \in {"ising", "xy"}, b \in {"sv", "mps"}} : m \in SUBSET Atoms} : c \in BOOLEAN}
+(* scenario sets are FILTERS over a record product (TLC enumerates those lazily; a big UNION of record
+   sets is normalised first, which is quadratic) *)
+AllRecords == [custom : BOOLEAN, htype : {"ising", "xy"}, cls : [UPairs -> {"below", "equal", "above"}], mask : SUBSET Atoms,
+               slmEnd : {0, 2, 3, 6}, T : {<<0, 2, 4, 6>>}, backend : {"sv", "mps"}]
+NEqual(f) == Cardinality({p \in UPairs : f[p] = "equal"})
+MaskEndOK(s) == (s.mask = {}) = (s.slmEnd = 0)
+cScn == {s \in AllRecords : MaskEndOK(s) /\ (~s.custom => NEqual(s.cls) = 0)}
 (* N = 4 (thorough tier): every below / above assignment of the six pairs, for a user matrix also every
    assignment with exactly one pair equal to the cutoff; Rydberg interaction; every mask subset *)
-OneEqual == {f \in [UPairs -> {"below", "equal", "above"}] : Cardinality({p \in UPairs : f[p] = "equal"}) = 1}
-ClsSets4(c) == [UPairs -> {"below", "above"}] \cup (IF c THEN OneEqual ELSE {})
-cScn4 == UNION {UNION {{[custom |-> c, htype |-> "ising", cls |-> f, mask |-> m, slmEnd |-> e, T |-> <<0, 2, 4, 6>>, backend |-> b] :
-                         f \in ClsSets4(c), e \in Ends(m), b \in {"sv", "mps"}} : m \in SUBSET Atoms} : c \in BOOLEAN}
+cScn4 == {s \in AllRecords : MaskEndOK(s) /\ s.htype = "ising" /\ NEqual(s.cls) <= (IF s.custom THEN 1 ELSE 0)}
 ====
